@@ -179,6 +179,31 @@ def _device_state(w, keys, cp="ibm437"):
     return out
 
 
+def fnv(xs):
+    h = 14695981039346656037
+    for x in xs:
+        h = ((h ^ x) * 1099511628211) % (1 << 64)
+    return h
+
+
+def real_contents(w, keys):
+    """{path keys: fnv of the file's bytes} through the public API"""
+    out = {}
+    stack = ["/"]
+    try:
+        while stack:
+            d = stack.pop()
+            for n in w.fs.listdir(d):
+                p = d.rstrip("/") + "/" + n
+                if w.fs.isdir(p):
+                    stack.append(p)
+                else:
+                    out[natl(keys.path(p))] = fnv(w.fs.readbytes(p))
+    except Exception as e:  # noqa
+        out["unreadable"] = common.exc_class(e)
+    return out
+
+
 def parse_dump(line):
     if not line.startswith("ok "):
         return None
@@ -255,6 +280,16 @@ def init_lines(w, keys):
     for n in order:
         f = n.split("/")
         lines.append("fs node %s %s %s %s %s %s %s" % tuple(f))
+    # the data area: the bytes of every cluster a file of the initial tree owns (everything else reads as zeros;
+    # bytes behind a file's size never show)
+    if pf._get_cluster_count() <= 5000:
+        img = w.dev.snapshot()
+        for n in order:
+            f = n.split("/")
+            if f[3] == "0" and f[4] != "-":
+                for c in f[4].split(","):
+                    o = w.off + pf.get_data_cluster_address(int(c))
+                    lines.append("fs data %s %s" % (c, common.hexs(img[o:o + pf.bytes_per_cluster])))
     return lines
 
 
@@ -263,18 +298,29 @@ def op_lines(op, keys, size_of):
     writebytes = openbin("wb") [create if missing; truncate to 0] + write + close;
     appendbytes = openbin("ab") [create if missing] + write at the end + close"""
     k = op[0]
+    pk = natl(keys.path(op[1]))
+
+    def wdata(pos, tag, n):
+        return "fs wdata %s %d %s" % (pk, pos, common.hexs(data_for(tag, n)))
     if k == "writebytes":
         ls = [op_line(["create", op[1], False], keys), op_line(["ftrunc", op[1], 0], keys)]
         if op[2] > 0:
-            ls.append(op_line(["fwrite", op[1], 0, op[2], 0], keys))
+            ls += ["fs mark", op_line(["fwrite", op[1], 0, op[2], 0], keys), wdata(0, op[3], op[2])]
         return ls
     if k == "appendbytes":
         ls = [op_line(["create", op[1], False], keys)]
         if op[2] > 0:
-            ls.append(op_line(["fwrite", op[1], size_of(op[1]), op[2], 0], keys))
+            sz = size_of(op[1])
+            ls += ["fs mark", op_line(["fwrite", op[1], sz, op[2], 0], keys), wdata(sz, op[3], op[2])]
         else:
             ls.append(op_line(["fwrite", op[1], 0, 0, 0], keys))
         return ls
+    if k == "fwrite" and op[3] > 0:
+        return ["fs mark", op_line(op, keys), wdata(op[2], op[4], op[3])]
+    if k == "ftrunc":
+        sz = size_of(op[1])
+        if op[2] > sz:
+            return ["fs mark", op_line(op, keys), "fs wdata %s %d %s" % (pk, sz, "00" * (op[2] - sz))]
     return [op_line(op, keys)]
 
 
@@ -333,6 +379,7 @@ def run_program(cfg, ops, res, device_every=1, stop_after=None):
     want_check = count <= 5000          # the checker's "every other cluster is free" clause is quadratic
     c0 = drv.ask("fs check %d" % count) if want_check else None
     checks = []
+    contents = []
     reals = [(real_state(w, keys), device_state(w, keys))]
     results = []
     idx = []
@@ -355,9 +402,15 @@ def run_program(cfg, ops, res, device_every=1, stop_after=None):
                         if f_[0] == want:
                             return int(f_[5])
                 return 0
-            a = [drv.ask(ln) for ln in op_lines(op, keys, size_of)]
+            a = []
+            for ln in op_lines(op, keys, size_of):
+                q = drv.ask(ln)
+                if ln.startswith("fs op"):
+                    a.append(q)
             b = drv.ask("fs dump")
             idx.append((a, b))
+            if want_check:
+                contents.append((i, drv.ask("fs contents"), real_contents(w, keys)))
             if want_check:
                 checks.append((i, drv.ask("fs check %d" % count)))
             dev = device_state(w, keys) if (i % device_every == 0 or r.startswith("err")) else None
@@ -379,8 +432,22 @@ def run_program(cfg, ops, res, device_every=1, stop_after=None):
         if out[ci] != "ok":
             divs.append((i, "hypotheses-of-the-theorems", out[ci], "ok"))
             break
+    # contents of every file: Model.Fs.contentOf on the model's data area vs readbytes through the real API
+    ncont = 0
+    for i, ci, rc in contents:
+        ans = out[ci]
+        mc = {}
+        if ans.startswith("ok ") and ans != "ok -":
+            for ent in ans[3:].split("|"):
+                pth, _, hv = ent.rpartition(":")
+                mc[pth] = int(hv)
+        ncont += len(mc)
+        if mc != rc:
+            bad = sorted(set(mc) ^ set(rc)) or [k_ for k_ in mc if mc[k_] != rc.get(k_)]
+            divs.append((i, "contents", str(bad[:3]), "model %d files, real %d files" % (len(mc), len(rc))))
+            break
     divs.sort(key=lambda d: d[0])
-    stats = {"ops": len(results), "err": {}, "inv_checked": (1 if c0 is not None else 0) + len(checks), "footprint": []}
+    stats = {"ops": len(results), "err": {}, "inv_checked": (1 if c0 is not None else 0) + len(checks), "footprint": [], "contents": ncont}
     # C12's premise per primitive: data-area writes of a call go only to clusters of its target, of the target's
     # parent directory (the root's chain on FAT32) and to clusters that were free before the call
     for i, op in enumerate(ops[:len(results)]):
@@ -699,6 +766,7 @@ def run(tier):
         res.count("programs")
         res.count("ops", stats["ops"])
         res.count("states-checked-against-Inv/Shape/Sync", stats.get("inv_checked", 0))
+        res.count("file contents compared (Model.Fs.contentOf vs readbytes)", stats.get("contents", 0))
         res.count("cfg%d(fat%d,bpc%d)" % (ci, geo[ci][2], geo[ci][0]))
         for k, v in stats["err"].items():
             res.count("err:" + k, v)
